@@ -231,6 +231,13 @@ theorem kchunks_spec (p : Bytes) : ∀ c ∈ kchunks p, c ≠ [] ∧ ∀ x ∈ c
 
 theorem dotdot_kfree : ∀ x ∈ dotdot, isSlash x = false := by decide
 
+theorem sysRmdir_cases (fs : Fs) (path : Bytes) :
+    sysRmdir fs path = sysRmdirCore fs path ∨ ∃ e, sysRmdir fs path = (fs, .error e) := by
+  unfold sysRmdir
+  cases lastDot path with
+  | none => exact Or.inl rfl
+  | some e => exact Or.inr ⟨e, rfl⟩
+
 /-! ### the kernel path walk -/
 
 theorem walkAux_cons (fs : Fs) (k : CPath → List Name → Bool → Res) (cur : CPath) (c : Name) (rest : List Name) (fo : Bool) :
